@@ -68,6 +68,14 @@ class SplineMethod(SamplingMethod):
             B = evalf(B)
         except:
             raise Exception("Only linear systems supported in SplineMethod")
+        # An affine offset (constant or parametric) would be dropped silently by the chain analysis below
+        offset = ca.substitute([res['ode']], [args["x"], args["u"]], [ca.DM.zeros(args["x"].sparsity()), ca.DM.zeros(args["u"].sparsity())])[0]
+        try:
+            offset_is_zero = evalf(offset).is_zero()
+        except:
+            offset_is_zero = False
+        if not offset_is_zero:
+            raise Exception("Only linear systems supported in SplineMethod: the dynamics contain an offset term that does not depend on states or controls")
         # Obtain chains of differentiations (scalarised)
 
         # Use combined index: v=[x;u]
